@@ -1225,7 +1225,7 @@ class Reader(ABC):
         """
         # Compare scanline number against the ideal case (1, 2, 3, ...) and
         # find the missing line numbers.
-        ideal = set(range(1, self.scans["scan_line_number"][-1] + 1))
+        ideal = set(range(1, int(self.scans["scan_line_number"][-1]) + 1))
         missing = sorted(ideal.difference(set(self.scans["scan_line_number"])))
         return np.array(missing, dtype=int)
 
